@@ -118,6 +118,11 @@ def main():
     if tier != 'quick':
         confs += [('pairwise-mi', dict(target_ranking_only='False', combination_number_upper_bound=7, heuristic='MI-numba-randomized'), 6),
                   ('cap-1', dict(target_ranking_only='True', combination_number_upper_bound=1, heuristic='Constant'), 5)]
+    refjson = os.path.join(E.WORK_ROOT, f'c07_reference_{os.getpid()}.json')
+    os.makedirs(E.WORK_ROOT, exist_ok=True)
+    with open(refjson, 'w') as f_:
+        json.dump({'desc': {'features': ['f0', 'f1'], 'fields': []}}, f_)
+    confs.append(('prior-heuristic-reference-model', dict(target_ranking_only='True', combination_number_upper_bound=2, heuristic='surrogate-SGD', reference_model_JSON=refjson), 6))
     findings_confs = [('interactions-pairwise', dict(target_ranking_only='False', combination_number_upper_bound=6, interaction_order=2, heuristic='Constant'), 4),
                       ('3mr-order2', dict(target_ranking_only='True', combination_number_upper_bound=6, interaction_order=2, heuristic='MI-numba-3mr'), 3)]
     nb = 6 if tier == 'quick' else 20
@@ -133,9 +138,23 @@ def main():
             if r is None or 'ok' not in r:
                 V.violation(f'run-failed:{name}', f'pipeline run failed: {PC.failure_text(r)}', {'conf': name, 'args': job['args']})
                 continue
-            calls = [e for e in r['ok']['events'] if e['e'] == 'call']
+            calls = []
+            for e in r['ok']['events']:
+                if e['e'] == 'call':
+                    calls.append(e)
+                elif e['e'] == 'batch' and e.get('trip') is not None and calls:
+                    # the pairs that appear in the batch's rows, named by the candidate key of the last rank-pair call
+                    last = next((c for c in reversed(calls) if c['e'] == 'call' and c['client'] == 'mixed_rank_graph'), None)
+                    if last is not None:
+                        cand = set(last['list'])
+                        keys = set()
+                        for a_, b_, *_ in e['trip']:
+                            k1, k2 = repr((a_, b_)), repr((b_, a_))
+                            keys.add(k1 if k1 in cand or k2 not in cand else k2)
+                        calls.append({'e': 'evaluated', 'keys': sorted(keys)})
             nbatches = len([e for e in r['ok']['events'] if e['e'] == 'batch'])
-            if not calls or nbatches < nb:
+            ncalls_only = [e for e in calls if e['e'] == 'call']
+            if not ncalls_only or nbatches < nb:
                 raise E.MachineryError(f'{name}: recorder saw {len(calls)} sampler calls in {nbatches} batches')
             tf = os.path.join(wd, f'{name}.ndjson')
             with open(tf, 'w') as f:
@@ -147,7 +166,7 @@ def main():
             E.require_ok(res, f'SamplerTrace/{name}')
             V.add_tlc(res, f'SamplerTrace/{name}')
             # reported counts (what combination_estimation_counts.json is written from) = last logged counter
-            if r['ok']['comb_counts'] != calls[-1]['counts']:
+            if r['ok']['comb_counts'] != ncalls_only[-1]['counts']:
                 V.violation(f'reported-counts:{name}', 'returned GLOBAL_PRIOR_COMB_COUNTS differs from the counter after the last sampler call', {'conf': name})
             if res.violated == 'ReportedIsPerCombination':
                 V.violation(f'shared-key:{name}', 'a reported evaluation count is not the number of batches in which that combination was selected: '
@@ -155,13 +174,13 @@ def main():
             elif not res.ok:
                 # rejected trace: locate the first rejected call for the report
                 depth = res.depth
-                V.violation(f'trace-rejected:{name}', f'SamplerTrace rejects sampler call #{depth} of the recorded run (not a least-evaluated-first selection of exactly cap candidates, or counter mismatch)',
-                            {'conf': name, 'args': job['args'], 'call': calls[max(0, depth - 1)] if depth - 1 < len(calls) else None})
-            V.count(evaluations=len(calls), nontrivial=sum(1 for e in calls if e['cap'] < len(e['list'])), traces=1)
+                V.violation(f'trace-rejected:{name}', f'SamplerTrace rejects event #{depth - 1} of the recorded run (not a least-evaluated-first selection of exactly cap candidates, counter mismatch, or the pairs scored in the batch are not the returned candidates)',
+                            {'conf': name, 'args': job['args'], 'event': calls[max(0, depth - 2)] if depth - 2 < len(calls) else None})
+            V.count(evaluations=len(calls), nontrivial=sum(1 for e in ncalls_only if e['cap'] < len(e['list'])), traces=1)
             if name == 'target-only':
-                V.add_sample({'recorded_call': {k: calls[1][k] for k in ('client', 'list', 'cap', 'ret')}})
+                V.add_sample({'recorded_call': {k: ncalls_only[1][k] for k in ('client', 'list', 'cap', 'ret')}})
                 # negative control: corrupt one returned list
-                bad = [dict(e) for e in calls]
+                bad = [dict(e) for e in ncalls_only]
                 bad[1] = dict(bad[1], ret=list(reversed(bad[1]['ret'])))
                 with open(tf, 'w') as f:
                     f.write(json.dumps({'e': 'begin'}) + '\n')
@@ -173,6 +192,10 @@ def main():
                 V.notes['negative_control'] = 'SamplerTrace rejects a trace whose 2nd returned list was reversed'
     finally:
         E.cleanup(wd)
+        try:
+            os.unlink(refjson)
+        except OSError:
+            pass
     V.coverage['exhaustive'] = True
     return V.finish()
 
